@@ -141,7 +141,7 @@ impl<'a> Cur<'a> {
             16 => match (b >> 5) % 3 {
                 0 => Op::Leave,
                 1 => Op::ReuseDown,
-                _ => Op::ChangeIdentity(self.id(), self.u8() % 5),
+                _ => Op::ChangeIdentity(self.id(), self.u8() % RENEW_MODES),
             },
             17 => {
                 let k = self.u8();
@@ -174,7 +174,7 @@ impl<'a> Cur<'a> {
         let per = |on: bool, ms: u32| if on { Some(Periodic { every_ms: ms, num: 2 }) } else { None };
         Setup {
             own_gen: a % 3,
-            own_renew: (a >> 2) % 5,
+            own_renew: (a >> 2) % RENEW_MODES,
             cfg: CfgSpec {
                 probe_period_ms: 1000,
                 probe_rtt_ms: 300,
